@@ -16,13 +16,20 @@ ShapeAt(i) == IF "shapes" \in DOMAIN Tr THEN Tr.shapes[i] ELSE Tr.shape
 Judge(o) ==
   LET e == Expected(ShapeAt(l)) IN
   /\ o.kind = e.kind
-  /\ e.kind = "LocalProtocolError" => o.written = 0
+  \* (HTTP/2: the connection preface may be written on first use - it is not part of the request; there
+  \*  "nothing of it is written" is the clause o.att = <<>> below: no frame of a new stream appeared)
+  /\ (e.kind = "LocalProtocolError" /\ ShapeAt(l).proto = "h11") => o.written = 0
   /\ (e.kind = "ok" /\ ShapeAt(l).proto = "h11") =>
         /\ o.method = e.method /\ o.target = e.target
         /\ HostLeads(o.headers) = HostLeads(e.headers) /\ o.body = e.body      \* "Host allowed to lead"
+  \* HTTP/2: o.att = every transmission ATTEMPT of this request (every HEADERS frame that appeared on
+  \* any connection while the call ran, with the DATA of its stream), each judged
   /\ (e.kind = "ok" /\ ShapeAt(l).proto = "h2") =>
-        /\ o.headers = e.headers /\ o.body = e.body
-        /\ o.endOnHeaders = e.endOnHeaders /\ o.ended = e.ended
+        /\ Len(o.att) >= 1
+        /\ \A j \in DOMAIN o.att :
+             /\ o.att[j].headers = e.headers /\ o.att[j].body = e.body
+             /\ o.att[j].endOnHeaders = e.endOnHeaders /\ o.att[j].ended = e.ended
+  /\ (e.kind = "LocalProtocolError" /\ ShapeAt(l).proto = "h2") => o.att = <<>>
 TStep == l <= N /\ Judge(Tr.obs[l]) /\ l' = l + 1 /\ UNCHANGED tid
 TSpec == TInit /\ [][TStep]_<<tid, l>>
 ASSUME \A x \in 1..Len(Traces) : TLCSet(x, 0)
